@@ -213,5 +213,14 @@ def check(ctx, rep):
     from rules.props import c07
     c07.check_stream_end(rep, 'R06.f', core)
     check_fresh_host(rep, core)
+    # R06.h: a late response for cancelled work has no visible consequence over the bridge either: resume() frees an entry only when it can
+    # no longer be resolved, so the id of a cancelled stream is not handed to a new request while late responses may still arrive
+    from rules.props import c09 as _c09
+    rep.rule('R06.h', 'the bridge registry frees an entry only when it can no longer be resolved (late responses never reach another request)', floor=3)
+    _res = method(core, 'crux_core::bridge::registry::ResolveRegistry', 'resume')
+    if _res is None:
+        rep.missing('R06.h', 'ResolveRegistry::resume')
+    else:
+        _c09.check_resume(rep, 'R06.h', 'R06.h', core, _res)
     rep.assume('dropping the hosting future drops the nested command (ownership; the linear rule of C01 shows it is not stashed elsewhere)')
     rep.assume('user futures are cancellation safe (documented requirement of abort)')
